@@ -496,3 +496,95 @@ package checkers
 //@   astvalid
 //@   requires c != nil && ctxOK(c.ctx)
 //@   call (*octalLiteralChecker).warn requires @suggested-syntax-exists-in-target-version c.ctx.GoVersion.Major == 0 || c.ctx.GoVersion.Major > 1 || (c.ctx.GoVersion.Major == 1 && c.ctx.GoVersion.Minor >= 13)
+
+// ---- C10: simplification suggestions preserve program behaviour (boolExprSimplify)
+
+// literal bounds are read with the base their spelling announces (010 is eight, 0x10 is sixteen)
+//@ func (*boolExprSimplifyChecker).int64val
+//@   prop C10
+//@   nosafety node shapes are the subject of the C01 sweep
+//@   astvalid
+//@   pure
+//@   call strconv.ParseInt requires @literal-read-in-its-own-base arg1 == 0 && arg2 == 64
+//@   ensures @value-of-the-literal result1 ==> (typeIs(x, "*ast.BasicLit") && litInt64OK(cast(x, "*ast.BasicLit").Value) && result0 == litInt64(cast(x, "*ast.BasicLit").Value))
+
+// !(a op b) is replaced by (a op' b): exact for integers; never applied when a float operand is present (NaN)
+//@ func (*boolExprSimplifyChecker).invertComparison
+//@   prop C10
+//@   nosafety node shapes are the subject of the C01 sweep
+//@   requires c != nil
+//@   call Replace requires @negated-comparison-is-equivalent !c.hasFloats && (forall a int, b int :: !cmpTokI(old(cmp.Op), a, b) <==> cmpTokI(cmp.Op, a, b)) && isCmpTok(old(cmp.Op))
+
+// a > b || a == b  =>  a >= b (and the three siblings): operands are side-effect free and written identically
+//@ func (*boolExprSimplifyChecker).combineChecks
+//@   prop C10
+//@   nosafety node shapes are the subject of the C01 sweep
+//@   requires c != nil && ctxOK(c.ctx)
+//@   loop 1 invariant @operators-untouched-until-the-match lhs.Op == old(lhs.Op) && rhs.Op == old(rhs.Op)
+//@   call Replace requires @operands-are-pure-and-identical sideEffectFree(c.ctx.TypesInfo, lhs.X) && sideEffectFree(c.ctx.TypesInfo, lhs.Y) && astEq(lhs.X, rhs.X) && astEq(lhs.Y, rhs.Y)
+//@   call Replace requires @combined-check-is-equivalent forall a int, b int :: (cmpTokI(old(lhs.Op), a, b) || cmpTokI(rhs.Op, a, b)) <==> cmpTokI(lhs.Op, a, b)
+
+//@ func (*boolExprSimplifyChecker).isSafe
+//@   prop C10
+//@   nosafety
+//@   pure
+//@   requires c != nil && ctxOK(c.ctx)
+//@   ensures @is-side-effect-free result == sideEffectFree(c.ctx.TypesInfo, x)
+
+// x > c && x < c+2  =>  x == c+1 (and the seven siblings): every row of the two tables is an equivalence over the integers;
+// applied only to one side-effect-free operand compared with two integer literals, never when a float operand is present
+//@ func (*boolExprSimplifyChecker).foldRanges$1
+//@   prop C10
+//@   nosafety node shapes are the subject of the C01 sweep
+//@   pure
+//@   ensures @match-is-exact result <==> (lhs.Op == comb.lhsOp && rhs.Op == comb.rhsOp && c2 - c1 == comb.rhsDiff)
+
+//@ func (*boolExprSimplifyChecker).foldRanges
+//@   prop C10
+//@   nosafety node shapes are the subject of the C01 sweep
+//@   requires c != nil && ctxOK(c.ctx)
+//@   loop 1 invariant @operators-untouched-until-the-match lhs.Op == old(lhs.Op) && rhs.Op == old(rhs.Op)
+//@   loop 2 invariant @operators-untouched-until-the-match lhs.Op == old(lhs.Op) && rhs.Op == old(rhs.Op)
+//@   call strconv.FormatInt requires @operand-is-pure-and-bounds-are-literals !c.hasFloats && sideEffectFree(c.ctx.TypesInfo, lhs.X) && sideEffectFree(c.ctx.TypesInfo, rhs.X) && astEq(lhs.X, rhs.X) && typeIs(lhs.Y, "*ast.BasicLit") && typeIs(rhs.Y, "*ast.BasicLit") && c1 == litInt64(cast(lhs.Y, "*ast.BasicLit").Value) && c2 == litInt64(cast(rhs.Y, "*ast.BasicLit").Value) && arg1 == 10
+//@   call strconv.FormatInt#1 requires @folded-conjunction-is-equivalent e.Op == token.LAND && lhs.Op == token.EQL && (forall x int :: (cmpTokI(old(lhs.Op), x, c1) && cmpTokI(rhs.Op, x, c2)) <==> x == arg0)
+//@   call strconv.FormatInt#2 requires @folded-disjunction-is-equivalent e.Op == token.LOR && lhs.Op == token.NEQ && (forall x int :: (cmpTokI(old(lhs.Op), x, c1) || cmpTokI(rhs.Op, x, c2)) <==> x != arg0)
+
+// x+1 > y  =>  x >= y (and the seven siblings): each row handed to `replace` is an equivalence over the integers, `replace`
+// applies exactly that row, and nothing is rewritten when a float operand is present (x+1 > y and x >= y differ for floats)
+//@ spec isLitOne(e ast.Expr) bool = typeIs(e, "*ast.BasicLit") && cast(e, "*ast.BasicLit").Value == "1"
+
+//@ func (*boolExprSimplifyChecker).removeIncDec$1
+//@   prop C10
+//@   nosafety node shapes are the subject of the C01 sweep
+//@   pure
+//@   ensures @one-sided-match result ==> (x.Op == op && isLitOne(x.Y))
+
+//@ func (*boolExprSimplifyChecker).removeIncDec$2
+//@   prop C10
+//@   nosafety node shapes are the subject of the C01 sweep
+//@   dyncalls_pure matchOneWay is the closure above, called through the captured variable
+//@   requires @matcher-is-the-verified-closure matchOneWay == fnid("(*boolExprSimplifyChecker).removeIncDec$1")
+//@   requires @row-is-an-equivalence forall x int, y int :: (cmpTokI(cmp.Op, arithTokI(lhsOp, x, 1), y) <==> cmpTokI(replacement, x, y)) && (cmpTokI(cmp.Op, x, arithTokI(rhsOp, y, 1)) <==> cmpTokI(replacement, x, y))
+//@   call Replace#1 requires @left-row-applied old(typeIs(cmp.X, "*ast.BinaryExpr") && cast(cmp.X, "*ast.BinaryExpr").Op == lhsOp && isLitOne(cast(cmp.X, "*ast.BinaryExpr").Y)) && cmp.X == old(cast(cmp.X, "*ast.BinaryExpr").X) && cmp.Y == old(cmp.Y) && cmp.Op == replacement
+//@   call Replace#2 requires @right-row-applied old(typeIs(cmp.Y, "*ast.BinaryExpr") && cast(cmp.Y, "*ast.BinaryExpr").Op == rhsOp && isLitOne(cast(cmp.Y, "*ast.BinaryExpr").Y)) && cmp.Y == old(cast(cmp.Y, "*ast.BinaryExpr").X) && cmp.X == old(cmp.X) && cmp.Op == replacement
+
+//@ func (*boolExprSimplifyChecker).removeIncDec
+//@   prop C10
+//@   nosafety node shapes are the subject of the C01 sweep
+//@   requires c != nil
+//@   call removeIncDec$2 requires @never-with-float-operands !c.hasFloats
+
+// the float guard is computed for the very expression that is simplified next, and it looks at both operands of every
+// binary sub-expression
+//@ func (*boolExprSimplifyChecker).VisitExpr$1
+//@   prop C10
+//@   nosafety node shapes are the subject of the C01 sweep
+//@   pure
+//@   requires c != nil && ctxOK(c.ctx)
+//@   ensures @float-operand-detected result <==> (typeIs(n, "*ast.BinaryExpr") && (hasFloatProp(typeUnderlying(typeOfSpec(c.ctx, cast(n, "*ast.BinaryExpr").X))) || hasFloatProp(typeUnderlying(typeOfSpec(c.ctx, cast(n, "*ast.BinaryExpr").Y)))))
+
+//@ func (*boolExprSimplifyChecker).VisitExpr
+//@   prop C10
+//@   nosafety node shapes are the subject of the C01 sweep
+//@   requires c != nil && ctxOK(c.ctx)
+//@   call simplifyBool requires @float-guard-is-about-this-expression $scanned(payload(x)) && c.hasFloats == $scanFound(payload(x))
